@@ -224,7 +224,10 @@ func (d *db) installSnapshot(shardID uint64,
 
 func (d *db) removeAllLocked(shardID uint64, replicaID uint64, newLog bool) error {
 	if newLog {
-		if err := d.createNewLog(); err != nil {
+		// the current log file becomes an ordinary one: like any other switch to a
+		// new log file this needs its records synced and its index saved first, a
+		// log file without an index is expected to be the only one when reopened
+		if err := d.switchToNewLog(); err != nil {
 			return err
 		}
 	}
